@@ -19,7 +19,7 @@ import (
 )
 
 // sigma: every byte some parser branches on, plus one representative of each other class.
-var sigma = []byte{0x1b, '[', ']', 'O', '<', 'M', 'm', ';', '0', '1', '2', '5', '~', 'A', 'I', 'c', 'Q', '=', 0x07, '\\', 'x', 0x01, 0x7f, 0xc3, 0xa9, 0x9b, 0xff}
+var sigma = []byte{0x1b, '[', ']', 'O', '<', 'M', 'm', ';', '0', '1', '2', '5', '~', 'A', 'I', 'c', 'Q', '=', 0x07, '\\', 'x', 0x01, 0x7f, 0xc3, 0xa9, 0x9b, 0xff, '-'}
 
 // deep: small alphabet for long strings (reaches the 7-byte OSC 52 introducer logic).
 var deepQ = []byte{0x1b, 'x', 'Q', 0x07}
@@ -361,6 +361,7 @@ func tokens(e common.Entry, p *tcell.VerifParser) []token {
 	add("sgr-release", "\x1b[<0;3;4m", mouse(2, 3, tcell.ButtonNone), "mouse")
 	add("sgr-motion", "\x1b[<35;10;11M", mouse(9, 10, tcell.ButtonNone), "mouse")
 	add("sgr-wheel", "\x1b[<65;1;1M", mouse(0, 0, tcell.WheelDown), "mouse")
+	add("sgr-negative", "\x1b[<35;-3;-12M", mouse(0, 0, tcell.ButtonNone), "mouse") // the pointer left of and above the window
 	add("x11-press", "\x1b[M !\"", mouse(0, 1, tcell.Button1), "mouse")
 	add("paste-start", "\x1b[200~", []ri.Ev{{Kind: "paste", Flag: true}}, "paste")
 	add("paste-end", "\x1b[201~", []ri.Ev{{Kind: "paste", Flag: false}}, "paste")
@@ -381,7 +382,7 @@ func tokens(e common.Entry, p *tcell.VerifParser) []token {
 func main() {
 	w := hc.Start("C02")
 	w.WatchStall(describeCurrent)
-	w.R.Rule = "per terminal description (quick: one per distinct input signature = key table + mouse + clipboard capability; thorough: every entry): (1a) all byte strings over a 27-byte branching alphabet up to length L from the initial parser state, (1b) all strings up to length 9 over a 4-6 byte alphabet, (1c) all strings up to length 2-3 from the state after every proper prefix of every token; each string fed in one read, at every two-chunk split and byte-wise, comparing events, unconsumed bytes and parser flags after the feeds and after the timeout (no byte may remain); (2) all token strings up to length 3 (keys, modified keys, Alt prefix, SGR/X11 mouse, paste brackets, focus, OSC 52 replies with BEL and ST, ASCII, UTF-8, invalid byte, control byte) under the same partitions plus compositionality: events(t1 t2 t3) = events(t1)+events(t2)+events(t3) for self-delimiting tokens. distinct_nontrivial = distinct (entry,start,string) cases producing at least one non-rune event"
+	w.R.Rule = "per terminal description (quick: one per distinct input signature = key table + mouse + clipboard capability; thorough: every entry): (1a) all byte strings over a 28-byte branching alphabet up to length L from the initial parser state, (1b) all strings up to length 9 over a 4-6 byte alphabet, (1c) all strings up to length 2-3 from the state after every proper prefix of every token; each string fed in one read, at every two-chunk split and byte-wise, comparing events, unconsumed bytes and parser flags after the feeds and after the timeout (no byte may remain); (2) all token strings up to length 3 (keys, modified keys, Alt prefix, SGR/X11 mouse, paste brackets, focus, OSC 52 replies with BEL and ST, ASCII, UTF-8, invalid byte, control byte) under the same partitions plus compositionality: events(t1 t2 t3) = events(t1)+events(t2)+events(t3) for self-delimiting tokens. distinct_nontrivial = distinct (entry,start,string) cases producing at least one non-rune event"
 	w.R.Assumptions = []string{"two-chunk splits plus state equality imply all partitions (induction on the number of chunks, DESIGN.md 1.4); byte-wise feeding is an additional direct check", "the synchronous entry is the same collectEventsFromInput code mainLoop calls; timer behaviour itself is covered by C05/C06"}
 
 	if *hc.Replay != "" {
